@@ -46,11 +46,11 @@ Proof. exact wf_example_proof. Qed.
 
 (* T1  Moreau decomposition for EVERY expression tree: whenever both proximals exist,
        prox_{sigma f}(x) + sigma * prox_{f.convex_conj / sigma}(x / sigma) = x
-   for all sigma > 0, all x, all dimensions and weights.  [D e] (C08/ProxRules.v) excludes, besides
-   the classes that have no proximal (for which the premise is false anyway): LpNorm(inf) /
-   IndicatorLpUnitBall(1) (sort-based l1 projection: correspondence + probes only), a
-   DefaultConvexConjugate wrapped around a functional flagged linear, and a reflection f(s .), s < 0,
-   of a functional whose conjugate is flagged linear. *)
+   for all sigma > 0, all x, all dimensions and weights (incl. the sort-based l1-ball projection of the
+   LpNorm(inf) <-> IndicatorLpUnitBall(1) pair, through its positive homogeneity, C08/ProjL1.v).
+   [D e] (C08/ProxRules.v) excludes, besides the classes that have no proximal (for which the premise is
+   false anyway): a DefaultConvexConjugate wrapped around a functional flagged linear, and a reflection
+   f(s .), s < 0, of a functional whose conjugate is flagged linear. *)
 Theorem moreau_decomposition :
   forall (sqrtf : R -> R), (forall a, 0 <= a -> 0 <= sqrtf a /\ sqrtf a * sqrtf a = a) ->
   forall (e e' : fxR) (n : nat) (w x : list R) (sigma : R) (p q : list R),
